@@ -140,6 +140,22 @@ def check(chk):
                     ok = False
     chk.judge(ok and bool(ints), 'C28.parse', pa, 'a token is read as a number only as a parameter of VectorType',
               'every all-digit token becomes an int: a UDT whose hex-encoded name has only digits (e.g. "address" = 61646472657373) fails to parse')
+    # the type a parameter list belongs to: the same stack slot on both sides of the parenthesis
+    def last_index(sub):
+        i = sub.slice
+        if isinstance(i, ast.UnaryOp) and isinstance(i.op, ast.USub) and isinstance(i.operand, ast.Constant):
+            return -i.operand.value
+        return i.value if isinstance(i, ast.Constant) else None
+    enc = [n for n in body_walk(pa) if isinstance(n, ast.Assign) and src(n.targets[0]) == 'enclosing']
+    appl = [n for n in body_walk(pa) if isinstance(n, ast.Assign) and isinstance(n.targets[0], ast.Subscript) and isinstance(n.value, ast.Call) and src(n.value.func).endswith('.apply_parameters')]
+    ok = len(enc) == 1 and len(appl) == 1
+    if ok:
+        subs = [x for x in ast.walk(enc[0].value) if isinstance(x, ast.Subscript) and isinstance(x.value, ast.Subscript) and isinstance(x.value.value, ast.Subscript) and src(x.value.value.value) == 'args']
+        closing = (last_index(appl[0].targets[0]), src(appl[0].targets[0].value), src(appl[0].value.func.value))
+        ok = len(subs) == 1 and (last_index(subs[0].value.value), last_index(subs[0].value), last_index(subs[0])) == (-2, 0, -1) and closing[0] == -1 and closing[2] == '%s[-1]' % closing[1]
+    chk.judge(ok, 'C28.parse', pa, 'the enclosing type of a parameter is the last type of the parent level - the same slot `)` applies the parameters to',
+              'the type consulted for "is this a vector dimension?" is not the one the parameters are applied to on `)`: a vector that is not the first parameter of its parent keeps its dimension unparsed, '
+              'and a digit-only name after a vector sibling is read as a number')
     ls = mod.func('lookup_casstype_simple')
     chk.judge('trim_if_startswith(casstype, apache_cassandra_type_prefix)' in src(ls) and 'mkUnrecognizedType(casstype)' in src(ls) and '_casstypes[shortname]' in src(ls), 'C28.parse', ls,
               'simple names: strip the marshal prefix, look up by class name, else an unrecognized type', 'simple lookup changed')
